@@ -302,6 +302,12 @@ def report(
             continue  # same violation class already confirmed/reported, or enough reported
         # confirmation in a fresh interpreter
         res = replay_plan(rp, timeout=replay_timeout)
+        if not has_sig(res, sig) and v.get("replay_ops_with_history") is not None:
+            # not reproducible from the operation alone: the violation depends on what the interpreter
+            # did before (history); replay the operations executed so far in that interpreter as well
+            rp = dict(rp)
+            rp["ops"] = v["replay_ops_with_history"]
+            res = replay_plan(rp, timeout=replay_timeout)
         if not has_sig(res, sig):
             # try the full original plan (history dependent?)
             harness.append(f"unconfirmed violation {sig}: {v.get('detail', '')} (replay status {res.get('status')}, sigs {[x.get('sig') for x in res.get('violations', [])][:3]})")
